@@ -768,7 +768,8 @@ func (s *fstate) assign(lhs ast.Expr, rhs ast.Expr, rhsOrd Ord, tok token.Token,
 				}
 			}
 			s.setMapV(c, v, "map store at "+s.pos(n))
-			if s.inLoopUnord() && s.isOuterLoop(o) && v == rhsOrd && !s.mentionsLoopVar(lx.Index) && rhs != nil && !isFreshEmpty(rhs) && !isConst(s.info, rhs) {
+			if s.inLoopUnord() && s.isOuterLoop(o) && v == rhsOrd && !s.mentionsLoopVar(lx.Index) && rhs != nil && !isFreshEmpty(rhs) && !isConst(s.info, rhs) && !s.keyDetermined(lx.Index, rhs) {
+				// (a value that is a function of the key it is stored under is the same whichever iteration stores it)
 				s.choiceAt(n, "keyed store "+core.Stable(s.info, lhs)+" not keyed by the loop variable (last-wins / first-wins)")
 			} else if !s.inLoopUnord() && g.funcCtx[s.d.fn] && s.isOuter(o) && rhs != nil && !isFreshEmpty(rhs) && !isConst(s.info, rhs) && !isSelfAppend(lhs, rhs) {
 				// the function runs once per element of an unordered sequence (e.g. per input document) and
